@@ -2243,3 +2243,54 @@ def noneflow_rule(repo, rep, rule=None, mods=None):
     rep.check(not bad, rule, "chameleon.*", "%d None idioms (defaults, "
               "pass-through of an absent child) oriented correctly" % n,
               construct="noneflow")
+
+
+# ---------------------------------------------------------------------------
+# G-INNERMOST: a compile-time stack is read at its top
+
+
+def stack_attrs(ci):
+    """attributes of a class used as a stack: self.X.append(..) and
+    self.X.pop() both occur in its methods"""
+    app, pop = set(), set()
+    for m in ci.methods.values():
+        for n in ast.walk(m.node):
+            if isinstance(n, ast.Call) and isinstance(n.func, ast.Attribute) \
+                    and isinstance(n.func.value, ast.Attribute) and \
+                    src(n.func.value.value) == "self":
+                if n.func.attr == "append":
+                    app.add(n.func.value.attr)
+                elif n.func.attr == "pop" and not n.args:
+                    pop.add(n.func.value.attr)
+    return app & pop
+
+
+def innermost_rule(repo, rep, rule, class_qualnames, only=None):
+    """every constant subscript of a stack attribute is [-1]: the current
+    element, translation, scope ... is the innermost open one"""
+    n = 0
+    off = []
+    for cq in class_qualnames:
+        ci = repo.cls(cq)
+        stacks = stack_attrs(ci)
+        if only is not None:
+            stacks &= set(only)
+        for m in ci.methods.values():
+            for x in ast.walk(m.node):
+                if isinstance(x, ast.Subscript) and isinstance(
+                        x.value, ast.Attribute) and \
+                        src(x.value.value) == "self" and \
+                        x.value.attr in stacks and not isinstance(
+                            x.slice, ast.Slice):
+                    try:
+                        k = ast.literal_eval(x.slice)
+                    except ValueError:
+                        continue
+                    n += 1
+                    if k != -1:
+                        off.append("%s.%s: %s" % (ci.name, m.name, src(x)))
+    rep.check(n >= 1 and not off, rule, ", ".join(
+        c.split(".")[-1] for c in class_qualnames), "compile-time stacks "
+        "are read at their top: the innermost open element / translation / "
+        "scope (%d accesses)" % n, construct="innermost", detail="; ".join(off))
+    return n
